@@ -12,6 +12,9 @@ CHECKS = {
  "C03": ("logical work counter (cfg hook ticks), counting global allocator, nesting guard and per-run CPU clock as runtime monitors; absolute-bound oracle plus metamorphic saturation oracle over parameter magnitudes; worker-death attribution for allocation refusal / stack overflow / CPU hang",
          "Each template (complete CSI table with numeric slots, macro/sixel/font/margin families) is executed on the real engine with every slot at W*H+1, 2^16, 10^6 and 2^31-1. The monitors decide on deterministic counts (ticks, bytes requested, nesting depth), not wall-clock: ticks <= 16(n+1)WH*max(W,H), peak allocation <= 64MiB+4096n, nesting <= 32, and no growth beyond 2x between magnitudes >= 2^16. The CSI table is complete for parameter vectors of length <= 3 in quick and <= 6 in thorough.",
          "One tick per cell/pixel/glyph operation at the hook sites; loops without a tick are only seen by the 2 s CPU clock and the 60 s supervisor watchdog. Bounds are generous constants chosen by the harness; macro replay (65536 chars) and sixel (2048 px) limits of the engine are treated as fixed constants.", "DESIGN.md §4 C03"),
+ "C05": ("write->read differential on the real writers/loaders with an observational per-cell oracle (glyph bitmap, displayed colours, blink), independent reference decoders for BIN/ADF/IDF/Tundra reading the same bytes (three-way agreement), and load->save->load stability on accepted files incl. mutated ones",
+         "Generated documents in each format's domain (XBin up to 4096 wide with 1 or 2 fonts of height 1..=32 and six-bit palettes, BIN even widths, ADF/IDF ice 8x16, Tundra 24-bit) with forced classes (heights <25/=25/>25, control-range characters, second-font cells) are saved, decoded by a reference decoder, loaded and compared on size, shown cells, font page, ice mode, fonts and palette, then re-saved and re-loaded. Seed files and mutated seeds that the loader accepts are checked for re-save stability.",
+         "Cells are compared by what they show; palette colours at six-bit precision where the format stores six bits.", "DESIGN.md §4 C05"),
  "C06": ("strict specification decoder (reference model written from x_bin.htm) applied to the bytes the real writer emits, plus three-way loader differential; exhaustive small-scope row enumeration packed 4096 rows per buffer",
          "All rows of width 1..=7 over 3 chars x 3 attributes x 2 font pages (6.1e8 rows, thorough; widths 1..=5 in quick) and width 1..=10 over a 2x2 alphabet are saved compressed and decoded by an independent decoder that enforces run length 1..=64, no run across a row boundary, exact row width and no trailing bytes; decoded bytes must equal the source incl. the font-page bit; the engine's loader must give the same cells for compressed and uncompressed output. Random buffers up to 200x30 add long runs around the 64-cell limit.",
          "Rows are independent in this format, which is what makes packing many rows into one buffer an exhaustive enumeration of row neighbourhoods.", "DESIGN.md §4 C06"),
